@@ -149,7 +149,7 @@ def handleLIN (st : St) (n : Nat) (toks : List String) (reqs : Array LReq) : Res
   -- Set; it must predict, per request, acceptance / the refusal verdict / the storage conflict
   let storeKind := (get "store").getD "?"
   let oneLog := (reqs.toList.map (·.log)).eraseDups.length == 1
-  if storeKind == "mem" && oneLog && reqs.all (fun r => r.kind == "U") && hung == "0" then
+  if storeKind == "mem" && oneLog && reqs.all (fun r => r.kind == "U" || r.kind == "G") && hung == "0" then
     let ordToks := (toks.dropWhile (fun t => !t.startsWith "order=")).map (fun t =>
       ((t.replace "order=" "").replace "[" "").replace "]" "")
     let late := ((field toks "late").getD "0") != "0"
@@ -160,6 +160,10 @@ def handleLIN (st : St) (n : Nat) (toks : List String) (reqs : Array LReq) : Res
         match reqs[i]? with
         | none => .refuse "?"
         | some r =>
+          if r.kind == "G" then
+            -- a read never writes; it returns the value current when it opened its read handle (`C05_read_is_atomic`)
+            .refuse (match snap with | some b => "R:" ++ hx b | none => "R:-")
+          else
           let env : Wit.Env := { prev := match snap with | some b => .found b | none => .notFound }
           let out := Wit.update cfg env r.log r.old r.cp r.proof
           if out.err == .none then
@@ -167,6 +171,7 @@ def handleLIN (st : St) (n : Nat) (toks : List String) (reqs : Array LReq) : Res
           else .refuse (errName out.err)
       let init0 : Option Bytes := match lget init lg with | .val b => some b | _ => none
       let sys0 : Lin.Sys Bytes String := { store := init0, pcs := List.replicate reqs.size .idle, lin := [] }
+      let isRead (i : Nat) : Bool := match reqs[i]? with | some r => r.kind == "G" | none => false
       -- storage calls in the order they were released: W = begin, S = compare-and-set, C closes a refused request
       let sysF := ordToks.foldl (fun (sy : Lin.Sys Bytes String) tok =>
         let digits := tok.takeWhile Char.isDigit
@@ -175,12 +180,19 @@ def handleLIN (st : St) (n : Nat) (toks : List String) (reqs : Array LReq) : Res
         | some i =>
           let op := (tok.drop digits.length).toString
           let pending := match sy.pcs[i]? with | some (.done _) => false | _ => true
-          if op == "W" || op == "S" then Lin.stepThread dec (List.range reqs.size) sy i
+          if isRead i then
+            -- released from its start gate the read opens its handle (the copy is its linearisation point); released
+            -- from the gate before GetLatest it hands the copy out
+            if op == "start" || op == "g" then Lin.stepThread dec (List.range reqs.size) sy i else sy
+          else if op == "W" || op == "S" then Lin.stepThread dec (List.range reqs.size) sy i
           else if op == "C" && pending then Lin.stepThread dec (List.range reqs.size) sy i
           else sy) sys0
       let mouts := (List.range reqs.size).map (fun i => match sysF.pcs[i]? with
         | some (.done (.ok r)) => r | some (.done .storageErr) => "other" | _ => "unfinished")
-      let iouts := reqs.toList.map (·.err)
+      let iouts := reqs.toList.map (fun r =>
+        if r.kind == "G" then (match r.err, r.ret with
+          | "none", .val b => "R:" ++ hx b | "notFound", _ => "R:-" | e, _ => e)
+        else r.err)
       let mfinal : Opt := match sysF.store with | some b => .val b | none => .absent
       if mouts != iouts || mfinal.show != (lget final lg).show then
         st := { st with nDiv := st.nDiv + 1 }
